@@ -566,6 +566,14 @@ class Interp:
             p = st["path"]
             if p in ("debug_assert", "debug_assert_eq", "debug_assert_ne"):
                 return UNIT
+            if p in ("assert_eq", "assert_ne") and st.get("args") and len(st["args"]) >= 2:
+                l_, r_ = _deref(self.expr(st["args"][0], env)), _deref(self.expr(st["args"][1], env))
+                if isinstance(l_, int) and isinstance(r_, int):
+                    if (l_ == r_) != (p == "assert_eq"):
+                        self.ctx.exits.append(("panic", p + "!(" + st["tokens"][:80] + ") fails"))
+                    return UNIT
+                self.ctx.exits.append(("panic_unless", VOpaque("eq" if p == "assert_eq" else "ne", [l_, r_])))
+                return UNIT
             if p == "assert" and st.get("args"):
                 c = self.expr(st["args"][0], env)
                 if c is True:
@@ -1636,6 +1644,12 @@ class Interp:
             if not (0 <= args[0] <= len(recv.items)):
                 raise OutsideFragment("split_at out of bounds (would panic)")
             return VTuple([VView(recv, 0, args[0]), VView(recv, args[0], len(recv.items))])
+        if m == "div_ceil" and isinstance(recv, int) and len(args) == 1 and isinstance(args[0], int):
+            if args[0] == 0:
+                raise OutsideFragment("division by zero (would panic)")
+            return -(-recv // args[0])
+        if m == "collect" and isinstance(recv, VIter) and not args and ".collect" not in self.contracts:
+            return VArr(list(recv.items), "vec")
         if m == "last_mut" and isinstance(recv, VArr) and not args:
             return VOpaque("Some", [VRefCell(recv, len(recv.items) - 1)]) if recv.items else VOpaque("None")
         if m == "swap" and isinstance(recv, VArr) and len(args) == 2 and all(isinstance(x, int) for x in args):
@@ -1889,10 +1903,18 @@ def _dump_ast(root, rel, fn_path):
     p = os.path.join(root, rel)
     if not os.path.exists(p):
         raise AstLost(f"file {rel} not found")
-    r = subprocess.run([VFX, "ast", p, fn_path], capture_output=True, text=True)
-    if r.returncode != 0:
-        raise AstLost(f"fn {fn_path} in {rel}: {r.stderr.strip()}")
-    return json.loads(r.stdout)
+    # several fns may share a path under different #[cfg(..)]: take the first one that is active for the default feature set
+    for skip in range(0, 6):
+        r = subprocess.run([VFX, "ast", p, fn_path, str(skip)], capture_output=True, text=True)
+        if r.returncode != 0:
+            raise AstLost(f"fn {fn_path} in {rel}: {r.stderr.strip()}")
+        ast = json.loads(r.stdout)
+        try:
+            if Interp(Ctx(), {}, {}, "cfg").cfg_active(ast):
+                return ast
+        except OutsideFragment:
+            return ast
+    raise AstLost(f"fn {fn_path} in {rel}: no definition active for the default features")
 
 
 def file_consts(root, rel):
